@@ -46,6 +46,17 @@ def make_cases(rng, tier, maxl):
         sb = {"l": 0, "c": list(P) if k % 2 == 0 else [x * z for x in gen.rand_dir(rng)], "e": [ex * rng.uniform(0.8, 1.2)], "d": [1.0]}
         u = {"c": C, "p": [{"n": 2, "l": 0, "a": 3.0, "d": 5.0}, {"n": 2, "l": 0, "a": 0.5, "d": -2.0}]}
         cases.append({"id": "m%d_%d00_sign" % (len(cases), l), "extra": {"geom": "distinct", "stratum": "m"}, "shells": [sa, sb], "ecps": [u]})
+    # a tight purely local potential against diffuse shells: the local-part integrand is a narrow spike near the ECP centre
+    for k in range(6 if tier == "quick" else 40):
+        C = [0.0, 0.0, 0.0]
+        if k % 2 == 0:
+            P = [0.0, 0.0, 0.0]; ex = rng.loguniform(0.01, 0.1)
+        else:
+            P = [x * rng.uniform(1.0, 1.8) for x in gen.rand_dir(rng)]; ex = rng.uniform(0.6, 1.5)
+        sa = {"l": 0, "c": list(P), "e": [ex], "d": [1.0]}
+        sb = {"l": 0, "c": list(P), "e": [ex * rng.uniform(0.8, 1.2)], "d": [1.0]}
+        u = {"c": C, "p": [{"n": 2, "l": 0, "a": rng.loguniform(300.0, 2000.0), "d": rng.uniform(1.0, 5.0)}]}
+        cases.append({"id": "t%d_000_tightlocal" % len(cases), "extra": {"geom": "A=B=C" if k % 2 == 0 else "A=B", "stratum": "t"}, "shells": [sa, sb], "ecps": [u]})
     return cases
 
 
@@ -144,8 +155,8 @@ def run(tier, replay=None):
             if d0 <= tol:
                 continue
             cause = None
-            for key, fid in (("v_nt", "F-C12-tailcut"), ("v_ns", "F-C12-screen"), ("v_nsnt", "F-C12-tailcut+F-C12-screen"), ("v_all", "F-C01-type1-abandon"), ("v_fq", "F-C12-closedform")):
-                if dev(key) <= tol:
+            for key, fid in (("v_nt", "F-C12-tailcut"), ("v_ns", "F-C12-screen"), ("v_nsnt", "F-C12-tailcut+F-C12-screen"), ("v_all", "F-C01-type1-abandon"), ("v_fq", "F-C12-closedform"), ("v_qd", "F-C15-premature")):
+                if key in impl[cid] and dev(key) <= tol:
                     cause = fid; break
             if cause and all(f in active for f in cause.split("+")):
                 kn.setdefault(cause, []).append((cid, d0, tol))
